@@ -84,6 +84,13 @@ func (g *Gen) subset(min int) []string {
 
 func dec18(f float64) string { return fmt.Sprintf("%d", int64(f*1e18)) }
 
+func (g *Gen) activeDur() int64 {
+	if g.Profile == "sessions" {
+		return []int64{86400e9, 7 * 86400e9, 30 * 86400e9}[g.pick(3)]
+	}
+	return []int64{6 * 3600e9, 86400e9, 7 * 86400e9, 86400e9, 6 * 3600e9, 7 * 86400e9, 86400e9, 30e9, 3600e9, 1}[g.pick(10)]
+}
+
 // Setup writes the genesis lines.
 func (g *Gen) Setup() error {
 	t0 := int64(1700000000) * 1e9
@@ -115,6 +122,9 @@ func (g *Gen) Setup() error {
 	approver := g.actors[g.pick(len(g.actors))]
 
 	sessDelay := []int64{1, 30e9, 60e9, 3600e9}[g.pick(4)]
+	if g.Profile == "sessions" {
+		sessDelay = []int64{1, 5e9, 30e9}[g.pick(3)]
+	}
 	subDelay := sessDelay + []int64{0, 1, 60e9, 7200e9}[g.pick(4)]
 	shares := []string{"0", dec18(0.1), dec18(0.25), "333333333333333333", "1000000000000000000", "1"}
 	minGB, maxGB := g.coinsStr(g.subset(0), 1, 5), ""
@@ -156,7 +166,7 @@ func (g *Gen) Setup() error {
 		return fmt.Sprintf("%s:%d", g.denoms[g.pick(2)], 1+g.R.Int63n(2000))
 	}
 	if err := g.line("init t=%d provDeposit=%s provShare=%s nodeDeposit=%s activeDur=%d maxGB=%s minGB=%s maxHr=%s minHr=%s maxSubGB=%d minSubGB=%d maxSubHr=%d minSubHr=%d nodeShare=%s subDelay=%d sessDelay=%d proof=%d swapOn=%d swapDenom=%s approveBy=%s",
-		t0, dep(), shares[g.pick(len(shares))], dep(), []int64{6 * 3600e9, 86400e9, 7 * 86400e9, 86400e9, 6 * 3600e9, 7 * 86400e9, 86400e9, 30e9, 3600e9, 1}[g.pick(10)], maxGBs, minGB, maxHrs, minHr,
+		t0, dep(), shares[g.pick(len(shares))], dep(), g.activeDur(), maxGBs, minGB, maxHrs, minHr,
 		maxSubGB, minSubGB, maxSubHr, minSubHr, shares[g.pick(len(shares))], subDelay, sessDelay, g.pick(4)/3, 1-g.pick(5)/4, g.denoms[g.pick(2)], hexs(approver)); err != nil {
 		return err
 	}
@@ -195,6 +205,7 @@ type view struct {
 	subs      []subV
 	sess      []sessV
 	deadlines []int64
+	sessDl    []int64
 }
 type nodeV struct {
 	addr   []byte
@@ -276,6 +287,9 @@ func (g *Gen) view() *view {
 	for _, x := range k.Session.GetSessions(ctx) {
 		v.sess = append(v.sess, sessV{x.ID, x.SubscriptionID, x.GetAddress(), x.GetNodeAddress(), x.Status})
 		add(x.InactiveAt)
+		if n, ok := ns(x.InactiveAt); ok {
+			v.sessDl = append(v.sessDl, n)
+		}
 	}
 	for _, in := range s.App.CustomMintKeeper.GetInflations(ctx) {
 		add(in.Timestamp)
@@ -284,6 +298,15 @@ func (g *Gen) view() *view {
 }
 
 func (g *Gen) actor() []byte { return g.actors[g.pick(len(g.actors))] }
+
+// buyer is an actor; in the sessions profile mostly one whose key the harness holds, so that
+// bandwidth reports can carry a valid signature when proof verification is on.
+func (g *Gen) buyer() []byte {
+	if g.Profile == "sessions" && g.chance(0.6) {
+		return g.actors[len(g.actors)-1-g.pick(2)]
+	}
+	return g.actor()
+}
 
 // who returns the right sender most of the time, otherwise any other actor.
 func (g *Gen) who(owner []byte) []byte {
@@ -428,6 +451,9 @@ func (g *Gen) Tx(v *view) error {
 		weights = []int{2, 0, 3, 1, 4, 4, 3, 4, 4, 1, 10, 2, 25, 12, 12, 6, 0}
 	case "money":
 		weights = []int{3, 1, 4, 2, 5, 16, 3, 4, 4, 1, 10, 6, 3, 12, 14, 8, 4}
+	case "sessions":
+		// several settled sessions per subscription, byte counts sized against the quota
+		weights = []int{1, 0, 2, 1, 3, 8, 2, 3, 4, 0, 8, 1, 9, 22, 26, 14, 0}
 	}
 	// state-directed pressure: build up what later operations need, and do not waste operations
 	// on tables that are still empty (they stay reachable with a small weight).
@@ -464,6 +490,9 @@ func (g *Gen) Tx(v *view) error {
 	}
 	if activeNodes < 2 && inactiveNodes > 0 {
 		weights[4] += 14
+	}
+	if g.Profile == "sessions" && inactiveNodes > 0 {
+		weights[4] += 10
 	}
 	if len(v.provs) > 0 && len(v.plans) < 2 {
 		weights[6] += 10
@@ -573,7 +602,16 @@ func (g *Gen) Tx(v *view) error {
 		return g.line("tx nodeUpdate from=%s gb=%s hr=%s url=%s urlok=%s%s", hexs(g.who(anyNode())), gb, hr, hexs([]byte(u)), b01(URLOK(u)), g.addrExtra("from"))
 	case "nodeStatus":
 		st := []int{1, 1, 1, 1, 3, 3, 1, 3, 1, 1, 3, 1, 0, 2}[g.pick(14)]
-		return g.line("tx nodeStatus from=%s status=%d%s", hexs(g.who(anyNode())), st, g.addrExtra("from"))
+		target := anyNode()
+		if g.Profile == "sessions" && g.chance(0.85) {
+			st = 1
+			for _, n := range v.nodes {
+				if !n.active {
+					target = n.addr
+				}
+			}
+		}
+		return g.line("tx nodeStatus from=%s status=%d%s", hexs(g.who(target)), st, g.addrExtra("from"))
 	case "nodeSubscribe":
 		gb, hr := int64(0), int64(0)
 		np := s.App.VPNKeeper.Node.GetParams(ctx)
@@ -614,7 +652,10 @@ func (g *Gen) Tx(v *view) error {
 			d = []string{"", "x", "1bad"}[g.pick(3)]
 		}
 		// a plan's provider leasing a node by the hour is what lets plan subscribers use that node
-		buyer := g.actor()
+		buyer := g.buyer()
+		if g.Profile == "sessions" && hr != 0 && g.chance(0.7) {
+			gb, hr = np.MinSubscriptionGigabytes+g.R.Int63n(min64(3, np.MaxSubscriptionGigabytes-np.MinSubscriptionGigabytes+1)), 0
+		}
 		if hr != 0 && len(v.plans) > 0 && g.chance(0.5) {
 			buyer = v.plans[g.pick(len(v.plans))].prov
 		}
@@ -666,7 +707,7 @@ func (g *Gen) Tx(v *view) error {
 				pd = p.prices[g.pick(len(p.prices))].Denom
 			}
 		}
-		return g.line("tx planSubscribe from=%s id=%d denom=%s%s", hexs(g.actor()), pid, pd, g.addrExtra("from"))
+		return g.line("tx planSubscribe from=%s id=%d denom=%s%s", hexs(g.buyer()), pid, pd, g.addrExtra("from"))
 	case "subCancel":
 		id := g.someID(subMax)
 		if len(v.subs) > 0 && g.chance(0.9) {
@@ -692,10 +733,13 @@ func (g *Gen) Tx(v *view) error {
 		}
 		var owner []byte
 		bytes := g.bytesAmount()
-		to := g.actor()
+		to := g.buyer()
 		for _, x := range v.subs {
 			if x.id == id {
 				owner = x.addr
+				if len(x.allocs) > 1 && g.chance(0.5) {
+					to = x.allocs[g.pick(len(x.allocs))].addr
+				}
 				// boundary values derived from the state: available = granted - used of (from,to)
 				var fa, ta *allocV
 				for i := range x.allocs {
@@ -711,7 +755,15 @@ func (g *Gen) Tx(v *view) error {
 					if ta != nil {
 						avail = avail.Add(ta.granted).Sub(ta.used)
 					}
-					switch g.pick(5) {
+					switch g.pick(7) {
+					case 5:
+						if ta != nil && ta.used.IsPositive() {
+							bytes = ta.used.SubRaw(1).String() // re-share below what the recipient already used
+						}
+					case 6:
+						if ta != nil {
+							bytes = ta.used.String()
+						}
 					case 0:
 						bytes = avail.String()
 					case 1:
@@ -740,6 +792,34 @@ func (g *Gen) Tx(v *view) error {
 		if len(live) > 0 && g.chance(0.85) {
 			id = live[g.pick(len(live))].id
 		}
+		if g.Profile == "sessions" && g.chance(0.85) {
+			// subscriptions that can actually be used now: their node is active
+			isActive := func(a []byte) bool {
+				for _, n := range v.nodes {
+					if string(n.addr) == string(a) {
+						return n.active
+					}
+				}
+				return false
+			}
+			var usable []subV
+			for _, x := range live {
+				if x.node != nil && isActive(x.node) {
+					usable = append(usable, x)
+				}
+				if x.plan != 0 {
+					for _, n := range k.Node.GetNodesForPlan(ctx, x.plan) {
+						if n.Status == hubtypes.StatusActive {
+							usable = append(usable, x)
+							break
+						}
+					}
+				}
+			}
+			if len(usable) > 0 {
+				id = usable[g.pick(len(usable))].id
+			}
+		}
 		var from []byte
 		node := anyNode()
 		for _, x := range v.subs {
@@ -748,6 +828,13 @@ func (g *Gen) Tx(v *view) error {
 					linked := k.Node.GetNodesForPlan(ctx, x.plan)
 					if len(linked) > 0 && g.chance(0.9) {
 						node = linked[g.pick(len(linked))].GetAddress()
+						if g.Profile == "sessions" {
+							for _, n := range linked {
+								if n.Status == hubtypes.StatusActive && g.chance(0.6) {
+									node = n.GetAddress()
+								}
+							}
+						}
 					}
 				}
 				from = x.addr
@@ -764,6 +851,9 @@ func (g *Gen) Tx(v *view) error {
 		id := g.someID(sessMax)
 		if len(v.sess) > 0 && g.chance(0.9) {
 			id = v.sess[g.pick(len(v.sess))].id
+			if a := activeSessIDs(v); len(a) > 0 && g.chance(0.8) {
+				id = a[g.pick(len(a))]
+			}
 		}
 		var node, acc []byte
 		for _, x := range v.sess {
@@ -786,11 +876,42 @@ func (g *Gen) Tx(v *view) error {
 			sig = fmt.Sprintf("good:%d", 1+g.pick(2))
 		}
 		dur := []int64{0, 1, 3600e9, 60e9, 1, 2, 3, 4, 5, 6, 7, 8, 9, 10, 11, 12, 13, 14, 15, -1}[g.pick(20)]
-		return g.line("tx sessUpdate from=%s id=%d up=%s down=%s dur=%d sig=%s%s", hexs(g.who(node)), id, g.bytesAmount(), g.bytesAmount(), dur, sig, g.addrExtra("from"))
+		up, down := g.bytesAmount(), g.bytesAmount()
+		if g.Profile == "sessions" && g.chance(0.85) {
+			// size the report against the quota of the allocation it will be settled on
+			for _, x := range v.sess {
+				if x.id != id {
+					continue
+				}
+				for _, sb := range v.subs {
+					if sb.id != x.sub {
+						continue
+					}
+					for _, al := range sb.allocs {
+						if string(al.addr) == string(x.addr) && al.granted.IsPositive() && al.granted.IsInt64() {
+							gr := al.granted.Int64()
+							tot := []int64{gr / 10, gr / 3, gr / 2, gr*7/10, gr, gr + gr/5, al.granted.Sub(al.used).Int64(), al.granted.Sub(al.used).Int64() + 1, 1 + g.R.Int63n(gr)}[g.pick(9)]
+							if tot < 0 {
+								tot = 0
+							}
+							u := int64(0)
+							if tot > 0 {
+								u = g.R.Int63n(tot + 1)
+							}
+							up, down = fmt.Sprint(u), fmt.Sprint(tot-u)
+						}
+					}
+				}
+			}
+		}
+		return g.line("tx sessUpdate from=%s id=%d up=%s down=%s dur=%d sig=%s%s", hexs(g.who(node)), id, up, down, dur, sig, g.addrExtra("from"))
 	case "sessEnd":
 		id := g.someID(sessMax)
 		if len(v.sess) > 0 && g.chance(0.9) {
 			id = v.sess[g.pick(len(v.sess))].id
+			if a := activeSessIDs(v); len(a) > 0 && g.chance(0.8) {
+				id = a[g.pick(len(a))]
+			}
 		}
 		var owner []byte
 		for _, x := range v.sess {
@@ -950,6 +1071,16 @@ func (g *Gen) GovOp() error {
 	return nil
 }
 
+func activeSessIDs(v *view) []uint64 {
+	var out []uint64
+	for _, x := range v.sess {
+		if x.status == hubtypes.StatusActive {
+			out = append(out, x.id)
+		}
+	}
+	return out
+}
+
 func min64(a, b int64) int64 {
 	if a < b {
 		return a
@@ -976,8 +1107,19 @@ func (g *Gen) Block() error {
 			fut = append(fut, d)
 		}
 	}
+	if g.Profile == "sessions" && g.chance(0.8) {
+		// mostly move to session deadlines, so that sessions settle while nodes and subscriptions live on
+		fut = nil
+		for _, d := range v.sessDl {
+			if d > now {
+				fut = append(fut, d)
+			}
+		}
+	}
 	sort.Slice(fut, func(i, j int) bool { return fut[i] < fut[j] })
 	switch {
+	case g.Profile == "sessions" && len(fut) == 0:
+		next = now + []int64{1, 1e9, 5e9, 30e9, 6e9, 60e9}[g.pick(6)]
 	case len(fut) > 0 && g.chance(0.45):
 		d := fut[g.pick(min(len(fut), 3))]
 		next = d + []int64{0, 0, -1, 1}[g.pick(4)]
